@@ -148,7 +148,7 @@ def honest_hints(L, used):
                 bits.append(at['zi'])
             else:
                 bits.append(at['z'])
-                out.append(z3.Or(at['z'] == 0, at['z'] == 1))
+                out.append(z3.And(at['z'] >= 0, at['z'] <= 1))
         out.append(q >= 0)
         out.append(val == z3.Sum([(1 << j) * bits[j] for j in range(n)]) + (1 << n) * q)
     for a, x in L.invzero:
@@ -166,7 +166,7 @@ def typed_bool_inputs(L):
 
 
 def solve(fs, timeout):
-    s = z3.Solver()
+    s = z3.SimpleSolver()
     s.set('timeout', int(timeout * 1000))
     s.add(*fs)
     t = time.time()
